@@ -19,7 +19,8 @@
    r_allocate_multiple R req c : res * result unit          allocate_multiple   (with the rollback)
    r_deallocate R c        : res * result unit              deallocate
    r_get_allocated_resources R c : res * list (rkey*Z)      the getter (it INSERTS an empty entry: defaultdict)
-   r_gt R req  (fit test `self > req`, used by can_accomodate_strategy), r_eq, r_empty
+   r_gt R req  (fit test `self > req`, used by can_accomodate_strategy: the requests played in order on a
+               scratch copy, /repo 402c33a), r_gt_per_key (the older per-key test), r_eq, r_empty
    r_copy R : result res   (__copy__ re-applies every allocation on a fresh vector; can raise)
    r_deepcopy R : res      (__deepcopy__: totals only)
    r_add A B : res         (__add__)
@@ -179,8 +180,28 @@ Definition r_get_allocated_computation (R : res) (r : rkey) : list (comp * Z) :=
   flat_map (fun cl => map (fun kq => (fst cl, snd kq))
                           (filter (fun kq => res_match r (fst kq)) (snd cl))) (r_allocs R).
 
-(* __gt__ (the fit test), __eq__, empty *)
-Definition r_gt (R : res) (req : rvec) : bool :=
+(* __gt__ (the fit test used by can_accomodate_strategy), as the code is NOW (/repo 402c33a): the
+   requests are played on a scratch copy of the available vector, in dict order, every matching cell
+   giving min(available, remaining) while something remains; False as soon as a request is left
+   unserved.  r_gt_per_key is the older per-key test (each key looked at on its own), which is still
+   what allocate_multiple checks first. *)
+Fixpoint gt_take (r : rkey) (rem : Z) (v : rvec) : rvec * Z :=
+  match v with
+  | [] => ([], rem)
+  | (k, q) :: v' =>
+      if res_match k r && (0 <? rem) then
+        let t := Z.min q rem in
+        let '(v'', rem') := gt_take r (rem - t) v' in ((k, q - t) :: v'', rem')
+      else
+        let '(v'', rem') := gt_take r rem v' in ((k, q) :: v'', rem')
+  end.
+Fixpoint gt_play (v : rvec) (req : rvec) : bool :=
+  match req with
+  | [] => true
+  | (r, q) :: req' => let '(v', rem) := gt_take r q v in if 0 <? rem then false else gt_play v' req'
+  end.
+Definition r_gt (R : res) (req : rvec) : bool := gt_play (r_avail R) req.
+Definition r_gt_per_key (R : res) (req : rvec) : bool :=
   forallb (fun rq => snd rq <=? r_available R (fst rq)) req.
 Definition r_eq (R : res) (req : rvec) : bool :=
   forallb (fun rq => r_available R (fst rq) =? snd rq) req.
